@@ -93,7 +93,7 @@ func vpGlobMatch(pattern, rel string) bool {
 	return vpPathMatch(strings.Split(pattern, "/"), strings.Split(rel, "/"))
 }
 
-var vpC21Includes = []string{"*.go", "**/*.go", "?.go", "[ab].go", "**", "d/*.go", "**/a.go", "*", "**/?.go"}
+var vpC21Includes = []string{"*.go", "**/*.go", "?.go", "[ab].go", "**", "d/*.go", "**/a.go", "*", "**/?.go", "d/e/*.go", "d/e/g.go", "d/**/*.go"}
 var vpC21Excludes = []string{"", "a.go", "*.go", "d", "**/b.go", "a"}
 
 func vpC21Name(tag string) string {
@@ -107,7 +107,7 @@ func vpH_C21_glob() {
 	const root = "p"
 	f1, f2, f3 := vpC21Name("file-in-root"), vpC21Name("file-in-dir"), vpC21Name("file-in-hidden-dir")
 	sub := "d"
-	files := []string{f1, sub + "/" + f2, ".h/" + f3, "plz-out/x.go"}
+	files := []string{f1, sub + "/" + f2, ".h/" + f3, "plz-out/x.go", sub + "/e/g.go"}
 	for _, f := range files {
 		vpMkFile(root+"/"+f, "x", 0o644)
 	}
@@ -139,7 +139,7 @@ func vpH_C21_glob() {
 			}
 			want = want && !ex
 		}
-		if i == 1 && isSubpackage {
+		if (i == 1 || i == 4) && isSubpackage { // (also below a literal directory prefix of the pattern)
 			want = false // files of a sub-package belong to that package
 		}
 		if !hidden {
@@ -167,7 +167,7 @@ func vpH_C21_glob() {
 				known = true
 			}
 		}
-		if g == sub || g == ".h" || g == "plz-out" || g == sub+"/BUILD" || g == "." || g == root {
+		if g == sub || g == ".h" || g == "plz-out" || g == sub+"/BUILD" || g == sub+"/e" || g == "." || g == root {
 			continue // directories matched by `*` / `**` patterns
 		}
 		vpAssert("nothing-invented", known)
